@@ -17,6 +17,9 @@ package main
 //	          or "panic"
 //	verdict = ok | ok noraw-fallback | fail:<reason>   (independent IPv4/UDP parser, see oracle)
 //
+// Every case goes through a worker that has already handled one other datagram (the "primer":
+// source ::ffff:10.9.8.7, max-28 octets of 0xaa), so the reused header and packet buffers are exercised.
+//
 // The packet is captured on a raw IPPROTO_UDP socket (full IP header) and, when the port can
 // be bound, also read from a UDP listener standing in for the third-party collector.
 // A raw socket with IP_HDRINCL has the kernel fill in the identification (when zero), the total
@@ -280,7 +283,7 @@ func verifRunMirror(cp *verifCapture, c verifMirrorCase) (string, string) {
 	cp.drain()
 	before := verifFds()
 	done := make(chan string, 2)
-	var send func()
+	var post func(src net.IP, body []byte) // nil src: ends the worker (nil raddr, recovered)
 	if c.proto == "ipfix" {
 		ch := make(chan IPFIXUDPMsg, 1)
 		go func() {
@@ -292,8 +295,13 @@ func verifRunMirror(cp *verifCapture, c verifMirrorCase) (string, string) {
 			err := mirrorIPFIX(c.dst, c.port, ch)
 			done <- "return " + fmt.Sprint(err)
 		}()
-		ch <- IPFIXUDPMsg{raddr: &net.UDPAddr{IP: c.src}, body: body}
-		send = func() { ch <- IPFIXUDPMsg{} } // nil raddr: ends the worker (recovered)
+		post = func(src net.IP, body []byte) {
+			if src == nil {
+				ch <- IPFIXUDPMsg{}
+			} else {
+				ch <- IPFIXUDPMsg{raddr: &net.UDPAddr{IP: src}, body: body}
+			}
+		}
 	} else {
 		ch := make(chan SFUDPMsg, 1)
 		go func() {
@@ -305,11 +313,36 @@ func verifRunMirror(cp *verifCapture, c verifMirrorCase) (string, string) {
 			err := mirrorSFlow(c.dst, c.port, ch)
 			done <- "return " + fmt.Sprint(err)
 		}()
-		ch <- SFUDPMsg{raddr: &net.UDPAddr{IP: c.src}, body: body}
-		send = func() { ch <- SFUDPMsg{} }
+		post = func(src net.IP, body []byte) {
+			if src == nil {
+				ch <- SFUDPMsg{}
+			} else {
+				ch <- SFUDPMsg{raddr: &net.UDPAddr{IP: src}, body: body}
+			}
+		}
 	}
 
-	pkt, stopped := cp.next(c, time.Now().Add(2*time.Second), done)
+	// the primer: another exporter, a datagram that fills the buffer of the unrepaired code exactly
+	var pkt []byte
+	stopped := ""
+	pn := c.max - 28
+	if pn < 0 {
+		pn = 0
+	}
+	pcap := c.max
+	if pcap < pn {
+		pcap = pn
+	}
+	pbody := make([]byte, pcap)
+	for i := range pbody {
+		pbody[i] = 0xaa
+	}
+	post(net.ParseIP("10.9.8.7"), pbody[:pn])
+	primer, stopped := cp.next(c, time.Now().Add(2*time.Second), done)
+	if primer != nil {
+		post(c.src, body)
+		pkt, stopped = cp.next(c, time.Now().Add(2*time.Second), done)
+	}
 	if pkt == nil && stopped == "" {
 		select {
 		case stopped = <-done:
@@ -317,7 +350,7 @@ func verifRunMirror(cp *verifCapture, c verifMirrorCase) (string, string) {
 		}
 	}
 	if stopped == "" {
-		send()
+		post(nil, nil)
 		select {
 		case <-done:
 		case <-time.After(2 * time.Second):
@@ -353,6 +386,7 @@ func verifRunMirror(cp *verifCapture, c verifMirrorCase) (string, string) {
 		// the stand-in collector
 		b := make([]byte, 1<<16)
 		lst.SetReadDeadline(time.Now().Add(500 * time.Millisecond))
+		lst.ReadFromUDP(b) // the primer
 		n, ra, err := lst.ReadFromUDP(b)
 		if err != nil {
 			verdict = "fail:udp listener received nothing: " + err.Error()
